@@ -253,3 +253,97 @@ def r_add_type(P, rep, rule, which):
         if n is not None:
             nt = T.classify(it, n.fields.get('ty'))
             rep.ob(rule, 'type.c:add_type:ND_COMMA(%s)' % a, nt == ('int' if a == 'enum' else a), 'comma expression has type %s, C11 6.5.17: type of the right operand (%s)' % (nt, a), where=where)
+
+
+# --------------------------------------------------------------- pointer arithmetic ---
+def r_pointer_scaling(P, rep, rule):
+    """new_add / new_sub: p+n, n+p, p-n scale the integer by the element size in 64-bit arithmetic; p-q is a signed long divided by the element size"""
+    T = Types(P)
+    pu = P.unit('parse.c')
+    for f in ('new_add', 'new_sub'):
+        if f not in pu.functions:
+            raise AnalysisBroken('parse.c: %s vanished' % f)
+    E = pu.enums
+
+    def leaf(it, tname, label, base='int'):
+        n = Obj('Node', lazy=False, label=label)
+        n.fields['kind'] = E['ND_VAR']
+        n.fields['tok'] = Obj('Token', lazy=True, label=label + '.tok')
+        if tname == 'ptr':
+            u, fn = it.find_def('pointer_to')
+            n.fields['ty'] = it.call_fn(u, fn, [T.glob(it, 'ty_' + base)])
+        else:
+            n.fields['ty'] = T.glob(it, 'ty_' + tname)
+        return n
+
+    def run(fn, lt, rt, base='long'):
+        it = Interp(P, pu, {'opaque': ['error_tok']})
+        box = {}
+
+        def mk(ctx):
+            it.ctx = ctx
+            l = leaf(it, lt, 'L', base); r = leaf(it, rt, 'R', base)
+            box['l'], box['r'] = l, r
+            return [l, r, Obj('Token', lazy=True, label='tok')]
+        outs = [out[1] for ctx, out in it.explore(fn, mk) if out[0] == 'ret']
+        return it, (outs[0] if len(outs) == 1 else None), box
+
+    def is_scale(it, n, operand, elem):
+        """n == operand * (long)elem"""
+        if not isinstance(n, Obj) or n.fields.get('kind') != E['ND_MUL']:
+            return False, 'the integer operand is not multiplied by the element size'
+        def unwrap(x):
+            ty = x.fields.get('ty') if isinstance(x, Obj) else None
+            while isinstance(x, Obj) and x.fields.get('kind') == E['ND_CAST'] and isinstance(x.fields.get('lhs'), Obj):
+                x = x.fields['lhs']
+            return x, ty
+        (a, at), (b, bt) = unwrap(n.fields.get('lhs')), unwrap(n.fields.get('rhs'))
+        c, cty = (b, bt) if a is operand else ((a, at) if b is operand else (None, None))
+        if c is None or not isinstance(c, Obj):
+            return False, 'the multiplication does not use the integer operand'
+        if c.fields.get('kind') != E['ND_NUM'] or c.fields.get('val') != elem:
+            return False, 'the scale factor is %r, expected the element size %d' % (c.fields.get('val'), elem)
+        cty = cty or c.fields.get('ty')
+        ct = T.classify(it, cty) if cty else 'int(untyped constant)'
+        if ct not in ('long', 'ulong'):
+            return False, 'the scale factor has type %s: index * size is computed in 32 bits and wraps for objects of 2 GiB or more' % ct
+        return True, ''
+    where = 'parse.c:%d' % pu.fn('new_add').line
+    for fn, kind, cases in (('new_add', 'ND_ADD', (('ptr', 'int'), ('int', 'ptr'), ('ptr', 'long'), ('ptr', 'uint'), ('ptr', 'char'))),
+                            ('new_sub', 'ND_SUB', (('ptr', 'int'), ('ptr', 'long'), ('ptr', 'ushort')))):
+        for lt, rt in cases:
+            it, res, box = run(fn, lt, rt)
+            key = 'parse.c:%s:%s,%s' % (fn, lt, rt)
+            if res is None:
+                rep.undecided(rule, key, 'no single returning path', where=where); continue
+            p, n = (box['l'], box['r']) if lt == 'ptr' else (box['r'], box['l'])
+            ok = res.fields.get('kind') == E[kind] and res.fields.get('lhs') is p
+            detail = 'the result is not %s with the pointer as left operand' % kind
+            if ok:
+                ok, detail = is_scale(it, res.fields.get('rhs'), n, 8)
+            if ok and fn == 'new_sub':
+                ok = res.fields.get('ty') is p.fields.get('ty')
+                detail = 'pointer - integer does not have the pointer\'s type'
+            rep.ob(rule, key, ok, '%s(%s, %s) with 8-byte elements: %s' % (fn, lt, rt, detail), where=where)
+    # pointer difference
+    it, res, box = run('new_sub', 'ptr', 'ptr')
+    key = 'parse.c:new_sub:ptr,ptr'
+    if res is None:
+        rep.undecided(rule, key, 'no single returning path', where=where)
+    else:
+        d = res
+        ok = d.fields.get('kind') == E['ND_DIV']
+        detail = 'the result is not a division'
+        if ok:
+            sub, num = d.fields.get('lhs'), d.fields.get('rhs')
+            ok = isinstance(sub, Obj) and sub.fields.get('kind') == E['ND_SUB'] and sub.fields.get('lhs') is box['l'] and sub.fields.get('rhs') is box['r']
+            detail = 'the dividend is not lhs - rhs'
+            if ok:
+                st = T.classify(it, sub.fields.get('ty')) if sub.fields.get('ty') else None
+                ok = st == 'long'
+                detail = 'the byte difference has type %s, C11 6.5.6p9 (ptrdiff_t) requires a signed 64-bit type' % st
+            if ok:
+                nt = T.classify(it, num.fields.get('ty')) if isinstance(num, Obj) and num.fields.get('ty') else 'int'
+                ok = isinstance(num, Obj) and num.fields.get('kind') == E['ND_NUM'] and num.fields.get('val') == 8 and nt in ('int', 'long')
+                detail = 'the divisor is %r of type %s: it must be the element size with a signed type (an unsigned divisor makes negative differences huge)' % (num.fields.get('val') if isinstance(num, Obj) else num, nt)
+        rep.ob(rule, key, ok, 'pointer difference: %s' % detail, where=where)
